@@ -372,7 +372,7 @@ func createUpstreamRequest(rw http.ResponseWriter, r *http.Request) (*http.Reque
 	// important is "Connection" because we want a persistent
 	// connection, regardless of what the client sent to us.
 	for _, h := range hopHeaders {
-		if outreq.Header.Get(h) != "" {
+		if len(outreq.Header.Values(h)) > 0 { // (present, whatever its first value: it may be empty)
 			if !copiedHeaders {
 				outreq.Header = make(http.Header)
 				copyHeader(outreq.Header, r.Header)
